@@ -45,7 +45,38 @@ def same_values(a, b, tol=1e-5):
 
 def op_case(ctx: Ctx, stream: str, i: int) -> None:
     rng = ctx.rng(stream, i)
-    if stream == 'inverse':
+    if stream == 'special':
+        # parameter values at which a shortcut could apply (unit / zero / negative-unit scales, all-ones diagonals,
+        # zero angles), given as weakly typed Python numbers and as strongly typed scalars narrower or WIDER than the data
+        from furax._base.core import HomothetyOperator
+        from furax._base.diagonal import DiagonalOperator
+        x64 = bool(jax.config.jax_enable_x64)
+        leaf_dt = rng.choice([jnp.float16, jnp.float32] + ([jnp.float64] if x64 else []))
+        nleaf = rng.choice([1, 2])
+        leaves = [jax.ShapeDtypeStruct((rng.choice([2, 3]),), leaf_dt) for _ in range(nleaf)]
+        s = leaves[0] if nleaf == 1 else leaves
+        v = rng.choice([1, 1, 1, 0, -1, 2])
+        form = rng.choice(['python-int', 'python-float', 'np.float32', 'jnp.float16', 'jnp.float32',
+                           'jnp.float64' if x64 else 'jnp.float32', 'np.float64'])
+        value = {'python-int': int(v), 'python-float': float(v), 'np.float32': np.float32(v),
+                 'np.float64': np.float64(v), 'jnp.float16': jnp.asarray(v, dtype=jnp.float16),
+                 'jnp.float32': jnp.asarray(v, dtype=jnp.float32),
+                 'jnp.float64': jnp.asarray(v, dtype=jnp.float64 if x64 else jnp.float32)}[form]
+        kind = rng.choice(['homothety', 'homothety', 'homothety', 'diagonal', 'scaled', 'divided'])
+        if kind == 'homothety':
+            op = HomothetyOperator(value, s)
+        elif kind == 'diagonal':
+            n = leaves[0].shape[0]
+            op = DiagonalOperator(jnp.full((n,), v, dtype=rng.choice([jnp.float16, jnp.float32])),
+                                  in_structure=leaves[0])
+        elif kind == 'scaled':
+            op = value * gen.mk_identity(rng, s) if not isinstance(value, int) or True else None
+        else:
+            d = gen.mk_diagonal(rng, leaves[0]) if nleaf == 1 else None
+            base = d if d is not None else gen.mk_identity(rng, s)
+            op = (2 * base) @ (base.I if d is not None else base) / 2 if v == 1 else base / (value if v != 0 else 2)
+        ctx.count(f'special:{kind}:{form}:{v}')
+    elif stream == 'inverse':
         # a lazy inverse (iterative solve needing several steps), alone or inside a composition
         s = gen.S(rng.choice([5, 6, 8]))
         a = None
@@ -73,7 +104,9 @@ def op_case(ctx: Ctx, stream: str, i: int) -> None:
         return
     cfg = {'class': name, 'x64': bool(jax.config.jax_enable_x64), 'expr': key[:1500]}
     # declared structure
-    if not gen.same_structure(jax.eval_shape(lambda: y0), op.out_structure()):
+    # (declared structures are C05's subject and only claimed there for parameters no wider than the data: the
+    # stream `special` deliberately uses wider parameters, for which only the agreement between the modes is C18's)
+    if stream != 'special' and not gen.same_structure(jax.eval_shape(lambda: y0), op.out_structure()):
         ctx.fail(stream, i, f'out-structure-vs-eager:{name}', 'eager result does not have out_structure()', cfg)
     # jit over a closure
     f1 = jax.jit(lambda v: op.mv(v))
@@ -152,6 +185,9 @@ def run(ctx: Ctx) -> None:
     for i in range(120 if q else 2500):
         if ctx.want('op', i):
             op_case(ctx, 'op', i)
+    for i in range(120 if q else 2500):
+        if ctx.want('special', i):
+            op_case(ctx, 'special', i)
     for i in range(16 if q else 300):
         if ctx.want('inverse', i):
             op_case(ctx, 'inverse', i)
